@@ -424,6 +424,8 @@ impl<'a> Run<'a> {
         if let Some(repo) = self.updated.read().get(rpki_notify) {
             return repo.read()
         }
+        #[cfg(routinator_verif)]
+        verif_c37::point("checked1");
 
         // Get a clone of the (arc-ed) mutex. Make a new one if there isn’t
         // yet.
@@ -432,14 +434,24 @@ impl<'a> Run<'a> {
             .entry(rpki_notify.clone()).or_default()
             .clone()
         };
+        #[cfg(routinator_verif)]
+        verif_c37::got_mutex(&mutex);
 
         // Acquire the mutex. Once we have it, see if the repository is
         // up-to-date which happens if someone else had the mutex first.
         let _lock = mutex.lock();
+        #[cfg(routinator_verif)]
+        verif_c37::point("locked");
         if let Some(repo) = self.updated.read().get(rpki_notify) {
+            #[cfg(routinator_verif)]
+            verif_c37::point("found2");
             self.running.write().remove(rpki_notify);
+            #[cfg(routinator_verif)]
+            verif_c37::point("removed2");
             return repo.read()
         }
+        #[cfg(routinator_verif)]
+        verif_c37::point("unchecked2");
 
         let mut log = LogBookWriter::new(
             self.collector.config.log_repository_issues.then(|| {
@@ -461,10 +473,14 @@ impl<'a> Run<'a> {
             (LoadResult::Unavailable, metrics)
         }
         else {
+            #[cfg(routinator_verif)]
+            verif_c37::fetch("start", rpki_notify);
             RepositoryUpdate::new(
                 self.collector, rpki_notify, &mut log,
             )?.try_update()?
         };
+        #[cfg(routinator_verif)]
+        verif_c37::fetch("end", rpki_notify);
 
         let log = log.into_book();
         if !log.is_empty() {
@@ -477,10 +493,16 @@ impl<'a> Run<'a> {
         let res = repo.read()?;
 
         // Insert into updated map.
+        #[cfg(routinator_verif)]
+        verif_c37::point("inserting");
         self.updated.write().insert(rpki_notify.clone(), repo);
+        #[cfg(routinator_verif)]
+        verif_c37::point("inserted");
 
         // Remove from running.
         self.running.write().remove(rpki_notify);
+        #[cfg(routinator_verif)]
+        verif_c37::point("removed");
 
         Ok(res)
     }
@@ -613,6 +635,175 @@ impl<'a> Run<'a> {
 }
 
 
+//------------ Verification hooks (C37) --------------------------------------
+//
+// Rendezvous points between the atomic steps of `Run::load_repository`, an
+// event log of the fetches, and a way to run `load_repository` on a bare
+// RRDP run (via the public `Config` since this module is private).
+
+#[cfg(routinator_verif)]
+mod verif_c37 {
+    use std::collections::HashMap;
+    use std::sync::{Arc, Mutex as StdMutex};
+    use rpki::uri;
+    use super::Mutex;
+
+    /// The mutex each thread (by name) last took out of `running`.
+    static MUTEXES: StdMutex<Option<HashMap<String, Arc<Mutex<()>>>>>
+        = StdMutex::new(None);
+
+    /// Every mutex any thread got since the last reset.
+    static KEEP: StdMutex<Vec<Arc<Mutex<()>>>> = StdMutex::new(Vec::new());
+
+    /// The log of events: (kind, thread name, rpkiNotify URI).
+    static EVENTS: StdMutex<Vec<(String, String, String)>>
+        = StdMutex::new(Vec::new());
+
+    // Whether the current thread has started a fetch it has not ended.
+    thread_local! {
+        static FETCHING: std::cell::Cell<bool>
+            = const { std::cell::Cell::new(false) };
+    }
+
+    fn thread_name() -> String {
+        std::thread::current().name().unwrap_or("").into()
+    }
+
+    /// A rendezvous point named after the step just taken and the thread.
+    pub fn point(step: &str) {
+        crate::verif::point(&format!(
+            "rrdp.load_repository.{}@{}", step, thread_name()
+        ));
+    }
+
+    /// Remembers the mutex the current thread got, then stops at a point.
+    ///
+    /// All mutexes are kept alive until `reset` so that their addresses
+    /// identify them.
+    pub fn got_mutex(mutex: &Arc<Mutex<()>>) {
+        KEEP.lock().unwrap().push(mutex.clone());
+        MUTEXES.lock().unwrap().get_or_insert_with(Default::default).insert(
+            thread_name(), mutex.clone()
+        );
+        point("got_mutex");
+    }
+
+    /// Logs the start or end of a fetch, then stops at a point.
+    ///
+    /// The end is also passed when the host was rejected as dubious; it
+    /// is only an end if the thread has started a fetch.
+    pub fn fetch(what: &str, rpki_notify: &uri::Https) {
+        if what == "start" {
+            FETCHING.with(|f| f.set(true));
+        }
+        else if !FETCHING.with(|f| f.replace(false)) {
+            return
+        }
+        event(&format!("fetch_{what}"), rpki_notify.as_str());
+        crate::verif::count(&format!("rrdp.fetch.{what}:{rpki_notify}"));
+        point(if what == "start" { "fetching" } else { "fetched" });
+    }
+
+    /// Appends an event of the current thread to the log.
+    pub fn event(kind: &str, key: &str) {
+        EVENTS.lock().unwrap().push(
+            (kind.into(), thread_name(), key.into())
+        );
+    }
+
+    /// Returns the event log.
+    pub fn events() -> Vec<(String, String, String)> {
+        EVENTS.lock().unwrap().clone()
+    }
+
+    /// Forgets mutexes and events.
+    pub fn reset() {
+        *MUTEXES.lock().unwrap() = None;
+        KEEP.lock().unwrap().clear();
+        EVENTS.lock().unwrap().clear();
+    }
+
+    /// The identity of the mutex the named thread got last and whether it
+    /// is locked right now (the `Debug` impl of a std mutex does `try_lock`).
+    pub fn mutex_of(thread: &str) -> Option<(usize, bool)> {
+        MUTEXES.lock().unwrap().as_ref()?.get(thread).map(|mutex| {
+            (
+                Arc::as_ptr(mutex) as usize,
+                format!("{:?}", mutex).contains("<locked>")
+            )
+        })
+    }
+}
+
+/// A bare run of a new RRDP collector.
+#[cfg(routinator_verif)]
+pub struct VerifC37Run(Run<'static>);
+
+#[cfg(routinator_verif)]
+impl VerifC37Run {
+    /// The real `Run::load_repository`: 0 = ok, 1 = run failed.
+    pub fn load(&self, rpki_notify: &uri::Https) -> u8 {
+        match self.0.load_repository(rpki_notify) {
+            Ok(_) => 0,
+            Err(_) => 1,
+        }
+    }
+
+    /// The URIs in `updated`, sorted.
+    pub fn updated(&self) -> Vec<String> {
+        let mut res: Vec<_> = self.0.updated.read().keys().map(|k| {
+            k.to_string()
+        }).collect();
+        res.sort();
+        res
+    }
+
+    /// The URIs in `running` with the identity of their mutex and whether
+    /// it is locked, sorted.
+    pub fn running(&self) -> Vec<(String, usize, bool)> {
+        let mut res: Vec<_> = self.0.running.read().iter().map(|(k, v)| {
+            (
+                k.to_string(), Arc::as_ptr(v) as usize,
+                format!("{:?}", v).contains("<locked>")
+            )
+        }).collect();
+        res.sort();
+        res
+    }
+
+    /// The number of metrics entries (one per update attempted or rejected).
+    pub fn metrics_len(&self) -> usize {
+        self.0.metrics.lock().len()
+    }
+
+    pub fn event(&self, kind: &str, key: &str) {
+        verif_c37::event(kind, key)
+    }
+
+    pub fn events(&self) -> Vec<(String, String, String)> {
+        verif_c37::events()
+    }
+
+    pub fn mutex_of(&self, thread: &str) -> Option<(usize, bool)> {
+        verif_c37::mutex_of(thread)
+    }
+}
+
+#[cfg(routinator_verif)]
+impl Config {
+    /// Starts a run of a new RRDP collector (leaked) and forgets the events
+    /// and mutexes of earlier runs.
+    pub fn verif_c37_rrdp_run(&self) -> Option<VerifC37Run> {
+        verif_c37::reset();
+        let mut collector = Collector::new(self).ok()??;
+        collector.ignite().ok()?;
+        let collector: &'static Collector = Box::leak(Box::new(collector));
+        Some(VerifC37Run(collector.start()))
+    }
+}
+//------------ End of verification hooks (C37) -------------------------------
+
+
 //------------ Verification hooks (C29) --------------------------------------
 
 #[cfg(routinator_verif)]
@@ -636,8 +827,6 @@ impl ReadRepository {
     }
 }
 //------------ End of verification hooks (C29) -------------------------------
-
-
 
 
 //------------ RrdpConfig ----------------------------------------------------
@@ -923,6 +1112,8 @@ impl<'a> RepositoryUpdate<'a> {
         self.log.warn(format_args!(
             "Delta and snapshot update failed. Removing local copy."
         ));
+        #[cfg(routinator_verif)]
+        crate::verif::kill_point("rrdp.tainted.remove", self.path.as_ref());
         if let Err(err) = fs::remove_file(self.path.as_ref()) {
             if !matches!(err.kind(), io::ErrorKind::NotFound) {
                 error!(
@@ -947,6 +1138,10 @@ impl<'a> RepositoryUpdate<'a> {
             self.metrics.serial = Some(state.serial);
             self.metrics.session = Some(state.session);
             state.touch(self.collector.config().fallback_time);
+            #[cfg(routinator_verif)]
+            crate::verif::kill_point(
+                "rrdp.not_modified.state", self.path.as_ref()
+            );
             archive.update_state(&state)?;
         }
         Ok(())
@@ -961,6 +1156,8 @@ impl<'a> RepositoryUpdate<'a> {
         notify: &Notification,
     ) -> Result<bool, RunFailed> {
         self.log.debug(format_args!("updating from snapshot."));
+        #[cfg(routinator_verif)]
+        crate::verif::kill_point("rrdp.snapshot.begin", self.path.as_ref());
         let (file, path) = self.collector.temp_file()?;
         let mut archive = SnapshotRrdpArchive::create_with_file(
             file, path.clone()
@@ -1016,6 +1213,8 @@ impl<'a> RepositoryUpdate<'a> {
         //     temp file and replace it with something new and we will now
         //     copy that to the final location.
 
+        #[cfg(routinator_verif)]
+        crate::verif::kill_point("rrdp.snapshot.remove", self.path.as_ref());
         if let Err(err) = fs::remove_file(self.path.as_ref()) {
             if !matches!(err.kind(), io::ErrorKind::NotFound) {
                 error!(
@@ -1027,6 +1226,8 @@ impl<'a> RepositoryUpdate<'a> {
             }
         }
         drop(archive);
+        #[cfg(routinator_verif)]
+        crate::verif::kill_point("rrdp.snapshot.rename", self.path.as_ref());
         if let Err(err) = fs::rename(path.as_ref(), self.path.as_ref()) {
             error!(
                 "Fatal: Failed to move new RRDP repository file {} to {}: {}",
@@ -1035,6 +1236,8 @@ impl<'a> RepositoryUpdate<'a> {
             return Err(RunFailed::fatal())
         }
 
+        #[cfg(routinator_verif)]
+        crate::verif::kill_point("rrdp.snapshot.renamed", self.path.as_ref());
         self.log.debug(format_args!("snapshot update completed."));
         Ok(true)
     }
@@ -1093,6 +1296,8 @@ impl<'a> RepositoryUpdate<'a> {
         // We are up-to-date now, so we can replace the state file with one
         // reflecting the notification we’ve got originally. This will update
         // the etag and last-modified data.
+        #[cfg(routinator_verif)]
+        crate::verif::kill_point("rrdp.delta.state", self.path.as_ref());
         if let Err(err) = archive.update_state(
             &notify.to_repository_state(self.collector.config.fallback_time)
         ) {
@@ -1188,6 +1393,78 @@ impl<'a> RepositoryUpdate<'a> {
         Ok(deltas)
     }
 }
+
+
+//------------ Verification hooks (C24, C25) ---------------------------------
+//
+// Add-only. An inherent method on the public `Config` so that it can be
+// reached from outside the crate although this module is private.
+
+#[cfg(routinator_verif)]
+impl Config {
+    /// Creates a new RRDP collector and returns a function that performs
+    /// one validation run’s worth of the real `Run::load_repository`.
+    ///
+    /// Every call of the returned function starts a fresh `Run`, loads the
+    /// repository with the given rpkiNotify URI and, if it was updated,
+    /// loads the objects for the URIs in `probe` through the returned
+    /// `ReadRepository`.
+    ///
+    /// If a config is passed to the function, the collector is first moved
+    /// to that config’s cache directory and RRDP settings. Only the HTTP
+    /// client is kept. (Building one reads the system’s root certificates
+    /// which is far too slow to do for every test case.)
+    ///
+    /// Returns the outcome (0 = unavailable, 1 = stale, 2 = current,
+    /// 3 = updated, 4 = run failed, retry, 5 = run failed, fatal), the code
+    /// of the snapshot reason from the run’s metrics, the result of
+    /// `load_object` for each probe (`None` also if loading failed), and the
+    /// path of the repository’s archive.
+    #[allow(clippy::type_complexity)]
+    pub fn verif_rrdp_updater(
+        &self
+    ) -> Option<Box<
+        dyn FnMut(Option<&Config>, &uri::Https, &[uri::Rsync]) -> (
+            u8, Option<&'static str>, Vec<Option<Bytes>>, Option<PathBuf>
+        )
+    >> {
+        let mut collector = Collector::new(self).ok()??;
+        collector.ignite().ok()?;
+        Some(Box::new(move |config, uri, probe| {
+            if let Some(config) = config {
+                match Collector::create_working_dir(config) {
+                    Ok(dir) => collector.working_dir = dir,
+                    Err(_) => return (5, None, Vec::new(), None),
+                }
+                collector.config = config.into();
+            }
+            let path = collector.repository_path(uri).ok();
+            let run = collector.start();
+            let res = run.load_repository(uri);
+            let reason = run.metrics.lock().last().and_then(|metrics| {
+                metrics.snapshot_reason.map(SnapshotReason::code)
+            });
+            match res {
+                Ok(LoadResult::Unavailable) => (0, reason, Vec::new(), path),
+                Ok(LoadResult::Stale) => (1, reason, Vec::new(), path),
+                Ok(LoadResult::Current) => (2, reason, Vec::new(), path),
+                Ok(LoadResult::Updated(repo)) => {
+                    let objects = probe.iter().map(|uri| {
+                        repo.load_object(uri).ok().flatten()
+                    }).collect();
+                    (3, reason, objects, path)
+                }
+                Err(err) => {
+                    (
+                        if err.is_fatal() { 5 } else { 4 },
+                        reason, Vec::new(), path
+                    )
+                }
+            }
+        }))
+    }
+}
+//------------ End of verification hooks (C24, C25) --------------------------
 
 
 //------------ Verification hooks (C30, C31) ---------------------------------
